@@ -8,6 +8,10 @@ import RavenModel.Model.Policy
 import RavenModel.Model.Auth
 import RavenModel.Model.AuthJson
 import RavenModel.Model.Resp
+import RavenModel.Model.PartTree
+import RavenModel.Model.Headers
+import RavenModel.Model.Split
+import RavenModel.Model.Blob
 /-! Line protocol: one op per line (`op arg …`, byte-string args hex encoded, `-` = empty, `.` = empty list),
 one canonical line out. Stateful ops (`m.*`) act on the driver's mailbox-machine state. -/
 open Raven
@@ -146,6 +150,52 @@ def opsC13 : List String → Option String
   | ["r.nstring", s] => some (hexOut (Resp.render (if (unhex s) = [] then .nil else if (unhex s).all (fun c => c ≠ 13 ∧ c ≠ 10 ∧ c ≠ 0) then .quoted (unhex s) else .literal (unhex s))))
   | _ => none
 
+/-- part trees travel as pre-order tokens `M:<attrs>:<n>` (n children follow) / `L:<attrs>` -/
+partial def parseTree : List String → Option (PartTree.Tree × List String)
+  | [] => none
+  | tok :: rest =>
+    match tok.splitOn ":" with
+    | ["L", a] => some (.leaf (unhex a), rest)
+    | ["M", a, n] =>
+      let rec kids (k : Nat) (toks : List String) (acc : List PartTree.Tree) : Option (List PartTree.Tree × List String) :=
+        match k with
+        | 0 => some (acc.reverse, toks)
+        | k+1 => match parseTree toks with
+          | some (t, r) => kids k r (t :: acc)
+          | none => none
+      (kids n.toNat! rest []).map (fun (cs, r) => (PartTree.Tree.multi (unhex a) cs, r))
+    | _ => none
+
+def showRow (r : PartTree.Row) : String :=
+  (match r.parent with | some p => toString p | none => "-") ++ "|" ++ toString r.num ++ "|" ++ (if r.isMulti then "M" else "L") ++ "|" ++ hexOut r.a
+
+def pathOf (s : String) : List Nat := if s = "." then [] else (s.splitOn ".").filterMap String.toNat?
+
+def opsMime : List String → Option String
+  | "t.flatten" :: toks => (parseTree toks).map (fun (t, _) => " ".intercalate ((PartTree.flatten t).map showRow))
+  | "t.map" :: path :: toks =>
+    (parseTree toks).map (fun (t, _) =>
+      match PartTree.mapPath (PartTree.flatten t) (pathOf path), PartTree.subtreeAt t (pathOf path) with
+      | some j, some (.leaf a) => s!"row {j} spec L {hexOut a}"
+      | some j, some (.multi a _) => s!"row {j} spec M {hexOut a}"
+      | none, none => "none"
+      | _, _ => "MISMATCH")
+  | ["s.split", m] => some (hexOut (Split.header (unhex m)) ++ " " ++ hexOut (Split.text (unhex m)))
+  | ["s.cut", m, o, n] => some (match Split.cut (unhex m) o.toInt! n.toNat! with | some r => hexOut r | none => "refuse")
+  | "h.extract" :: lines =>
+    some (" ".intercalate ((Hdr.extract none (unhexList lines)).map (fun h => hexOut h.name ++ "=" ++ ",".intercalate (h.lines.map hexOut))))
+  | _ => none
+
+/-- blob store: `b.run k:t k:t …` stores the parts in order and prints `key=refs:text` for every key present -/
+def opsBlob : List String → Option String
+  | "b.run" :: parts =>
+    let ps : List Blob.Part := parts.filterMap (fun s => match s.splitOn ":" with
+      | [k, t] => some ⟨k.toNat!, t.toNat!⟩
+      | _ => none)
+    let st := Blob.storeAll ps
+    some (" ".intercalate (st.map (fun e => s!"{e.key}={e.refs}:{e.text}")))
+  | _ => none
+
 /-! mailbox machine -/
 open Mail in
 def resS : Res → String | .ok => "ok" | .no => "no" | .bad => "bad"
@@ -239,7 +289,7 @@ def step (st : Mail.Store) (line : String) : Mail.Store × String :=
   match opsMail st args with
   | some r => r
   | none =>
-    match (opsC18 args <|> opsC09 args <|> opsC10 args <|> opsC16 args <|> opsC17 args <|> opsC04 args <|> opsC13 args) with
+    match (opsC18 args <|> opsC09 args <|> opsC10 args <|> opsC16 args <|> opsC17 args <|> opsC04 args <|> opsC13 args <|> opsMime args <|> opsBlob args) with
     | some r => (st, r)
     | none => (st, "bad-op")
 
